@@ -1,0 +1,171 @@
+//go:build verif
+
+package hsms
+
+// verif_export.go — exports for the out-of-tree runtime-verification harness (build tag "verif").
+// Nothing here exists in a normal build. It exposes (a) the vhook registry (the internal package
+// cannot be imported from outside the module), (b) a goroutine-free driver around the REAL
+// supervisor so a harness can schedule commits and queued events one atomic action at a time, and
+// (c) two pure functions.
+
+import (
+	"sync/atomic"
+	"time"
+
+	"github.com/arloliu/go-secs/v2/internal/vhook"
+)
+
+// VerifSetHook installs (nil: removes) the callback of a named vhook point.
+func VerifSetHook(name string, fn func(time.Duration)) { vhook.Set(name, fn) }
+
+// VerifClearHooks removes every vhook callback.
+func VerifClearHooks() { vhook.Clear() }
+
+// VerifHookCounts returns the hit counters of all vhook points.
+func VerifHookCounts() map[string]int64 { return vhook.Counts() }
+
+// VerifEvent mirrors the unexported fsmEvent.
+type VerifEvent uint8
+
+// The supervisor's internal events, in declaration order.
+const (
+	VerifEvTCPUp          = VerifEvent(evTCPUp)
+	VerifEvSelectAccepted = VerifEvent(evSelectAccepted)
+	VerifEvSelectLost     = VerifEvent(evSelectLost)
+	VerifEvDisconnect     = VerifEvent(evDisconnect)
+	VerifEvClose          = VerifEvent(evClose)
+	VerifEvT7Timeout      = VerifEvent(evT7Timeout)
+)
+
+// VerifStateChange is one notification as the notifier goroutine would deliver it.
+type VerifStateChange struct{ Prev, Next ConnState }
+
+// VerifTransition is the pure E37 transition table.
+func VerifTransition(cur ConnState, ev VerifEvent) (ConnState, bool) {
+	return transition(cur, fsmEvent(ev))
+}
+
+// VerifNextBackoffDelay is the pure reconnect back-off step.
+func VerifNextBackoffDelay(cur time.Duration, multiplier float64, ceil time.Duration) time.Duration {
+	return nextBackoffDelay(cur, multiplier, ceil)
+}
+
+// VerifSupervisor drives the real supervisor WITHOUT its run()/notifier() goroutines: the caller
+// decides when each queued event is stepped, and may interpose an action between step's load and
+// store of the state (the existing testHookAfterStateLoad seam).
+type VerifSupervisor struct {
+	s         *supervisor
+	handlers  atomic.Pointer[[]StateChangeHandler]
+	reactions []VerifStateChange
+}
+
+// NewVerifSupervisor builds a driver whose event queue holds up to eventsCap events.
+func NewVerifSupervisor(eventsCap int) *VerifSupervisor {
+	v := &VerifSupervisor{}
+	v.s = newSupervisorWithEventsCap(func(prev, next ConnState) {
+		v.reactions = append(v.reactions, VerifStateChange{Prev: prev, Next: next})
+	}, &v.handlers, eventsCap)
+
+	return v
+}
+
+// CommitConnected is the transport's synchronous TCP-up commit.
+func (v *VerifSupervisor) CommitConnected() bool { return v.s.CommitConnected() }
+
+// CommitSelected is the transport's synchronous select commit.
+func (v *VerifSupervisor) CommitSelected() bool { return v.s.CommitSelected() }
+
+// CommitSelectLost is the transport's synchronous select-lost commit.
+func (v *VerifSupervisor) CommitSelectLost() bool { return v.s.CommitSelectLost() }
+
+// InjectDisconnect queues what TCPDown queues.
+func (v *VerifSupervisor) InjectDisconnect() { v.s.inject(evDisconnect) }
+
+// InjectT7 queues what T7Expired queues.
+func (v *VerifSupervisor) InjectT7() { v.s.inject(evT7Timeout) }
+
+// RequestClose queues what Close queues (no epoch pinned).
+func (v *VerifSupervisor) RequestClose() { v.s.requestClose(nil) }
+
+// QueueLen is the number of queued events; QueueCap the capacity.
+func (v *VerifSupervisor) QueueLen() int { return len(v.s.events) }
+
+// QueueCap is the capacity of the event queue.
+func (v *VerifSupervisor) QueueCap() int { return cap(v.s.events) }
+
+// Pending returns the queued events in order (single-threaded use only).
+func (v *VerifSupervisor) Pending() []VerifEvent {
+	n := len(v.s.events)
+	out := make([]VerifEvent, 0, n)
+	for i := 0; i < n; i++ {
+		ev := <-v.s.events
+		out = append(out, VerifEvent(ev))
+		v.s.events <- ev
+	}
+
+	return out
+}
+
+// StepOne pops the oldest queued event and runs the real step on it. interpose, when non-nil, runs
+// between step's load of the state and its transition/store. ok is false when the queue is empty.
+func (v *VerifSupervisor) StepOne(interpose func()) (ev VerifEvent, ok bool) {
+	select {
+	case e := <-v.s.events:
+		if interpose != nil {
+			v.s.testHookAfterStateLoad = func(fsmEvent) { interpose() }
+		}
+		v.s.step(e)
+		v.s.testHookAfterStateLoad = nil
+
+		return VerifEvent(e), true
+	default:
+		return 0, false
+	}
+}
+
+// State is what Connection.State() would report.
+func (v *VerifSupervisor) State() ConnState { return v.s.State() }
+
+// LastReacted is the supervisor's dedup key.
+func (v *VerifSupervisor) LastReacted() ConnState { return v.s.lastReacted }
+
+// Closed is the close latch.
+func (v *VerifSupervisor) Closed() bool { return v.s.closed }
+
+// Dropped is the number of coalesced notifications so far.
+func (v *VerifSupervisor) Dropped() uint64 { return v.s.droppedNotify.Load() }
+
+// DrainNotifications empties the notification channel (what the notifier goroutine would deliver).
+func (v *VerifSupervisor) DrainNotifications() []VerifStateChange {
+	var out []VerifStateChange
+	for {
+		select {
+		case sc := <-v.s.notify:
+			out = append(out, VerifStateChange{Prev: sc.prev, Next: sc.next})
+		default:
+			return out
+		}
+	}
+}
+
+// DrainReactions returns and clears the log of react(prev,next) calls.
+func (v *VerifSupervisor) DrainReactions() []VerifStateChange {
+	out := v.reactions
+	v.reactions = nil
+
+	return out
+}
+
+// VerifSetConnHooks sets the two existing test seams of a connection built by NewConnection: the
+// after-write-lock hook of writeFrame and the per-attempt hook of the reconnect loop. Call it before
+// Open. It reports whether c is the engine type.
+func VerifSetConnHooks(c Connection, afterWriteLock, connectLoop func()) bool {
+	cc, ok := c.(*connection)
+	if !ok {
+		return false
+	}
+	cc.testHookAfterWriteLock = afterWriteLock
+	cc.testHookConnectLoop = connectLoop
+
+	return true
+}
